@@ -42,8 +42,11 @@ def tree(kind):
     return T
 
 
-SOURCE_DIRS = [None, ["sub"], ["sub/**"], ["**"], [".", "sub"], ["nonexistent"], ["<ABS>/sub/deep"], ["s*", "excl/inner"]]
-EXCL_PATHS = [[], ["excl"], ["excl/**"], ["sub/a.f90"], ["**/*.F90"], ["excl", "sub/deep"], ["<ABS>/excl/inner"]]
+# (the same directory or file may be spelled in several ways: "docs/../excl" is "excl")
+SOURCE_DIRS = [None, ["sub"], ["sub/**"], ["**"], [".", "sub"], ["nonexistent"], ["<ABS>/sub/deep"], ["s*", "excl/inner"],
+               ["sub", "docs/../excl", "./excl/inner/"]]
+EXCL_PATHS = [[], ["excl"], ["excl/**"], ["sub/a.f90"], ["**/*.F90"], ["excl", "sub/deep"], ["<ABS>/excl/inner"],
+              ["docs/../excl/h.f90", "sub/../sub/a.f90", "excl/inner/../inner"]]
 INCL_SUFFIXES = [[], [".inc"], ["inc"], [".FYP"]]
 EXCL_SUFFIXES = [[], [".F90"], ["_tmp.f90"]]
 
